@@ -1190,6 +1190,7 @@ impl<'a> Gen<'a> {
             clock_step_ns: 0,
             block_yield_mean: 0,
             atomic_yield_mean: 0,
+            atomic_hold_mean: 0,
         }
     }
 
@@ -1273,6 +1274,7 @@ impl<'a> Gen<'a> {
             clock_step_ns: 0,
             block_yield_mean: 0,
             atomic_yield_mean: 0,
+            atomic_hold_mean: 0,
         }
     }
 
@@ -1333,6 +1335,7 @@ impl<'a> Gen<'a> {
             clock_step_ns: 0,
             block_yield_mean: 0,
             atomic_yield_mean: 0,
+            atomic_hold_mean: 0,
         }
     }
 
@@ -1440,6 +1443,7 @@ impl<'a> Gen<'a> {
             clock_step_ns: *r.pick(&[0u64, 0, 0, 1_000_000, 1_000_000_000, 50_000_000_000]),
             block_yield_mean: 0,
             atomic_yield_mean: 0,
+            atomic_hold_mean: 0,
         }
     }
 
@@ -1453,13 +1457,41 @@ impl<'a> Gen<'a> {
         let fault_panic_real = r.below(3) == 0 && !panickers.is_empty();
         let fault_session = r.below(3) == 0;
         let session_thread = r.below(nthreads);
+        // *Twin workloads* (a quarter of the executions): every caller compiles the same
+        // program or a near-duplicate of it (a build tool or a server compiling one model on
+        // several threads), so that the callers run through the same code - the same memo,
+        // the same lock - at the same time. Drawn from a PRNG stream of its own so that the
+        // other executions of a seed stay what they were.
+        let mut tr = Rng::new(mix(s, 0x7717));
+        let theme: Option<String> = if tr.below(4) == 0 {
+            Some(match tr.below(8) {
+                0..=2 => tr.pick(DIALECT_SENSITIVE).to_string(),
+                3 => tpl_program(&mut tr),
+                4 => tr.pick(FRAGILE).to_string(),
+                5 => err_program(&mut tr),
+                _ => self.program(&mut tr),
+            })
+        } else {
+            None
+        };
         let mut threads = Vec::new();
         for t in 0..nthreads {
             let ncalls = r.range(1, 4);
             let mut calls = Vec::new();
             let mut prev: Option<Op> = None;
             for _ in 0..ncalls {
-                let mut c = Call::plain(self.next_op(&mut r, prev.as_ref(), true));
+                let op = match &theme {
+                    Some(th) => {
+                        let src = if tr.below(5) < 3 { th.clone() } else { variant_of(th, &mut tr) };
+                        if tr.below(10) < 7 {
+                            Op::Compile { src, opts: pick_opts(&mut tr, true) }
+                        } else {
+                            self.op_for_src(&mut tr, src, true)
+                        }
+                    }
+                    None => self.next_op(&mut r, prev.as_ref(), true),
+                };
+                let mut c = Call::plain(op);
                 prev = Some(c.op.clone());
                 if fault_panic_real && r.below(6) == 0 {
                     c.op = Op::Compile {
@@ -1503,7 +1535,7 @@ impl<'a> Gen<'a> {
             // default: real OS threads only — the faithful engine (DESIGN.md §9.2)
             _ => "threads",
         };
-        Plan {
+        let mut plan = Plan {
             stratum: "C".into(),
             exec_seed: s,
             shuttle: true,
@@ -1527,6 +1559,14 @@ impl<'a> Gen<'a> {
             block_yield_mean: *r.pick(&[0u32, 0, 0, 100_000, 10_000, 1_000]),
             // atomic-operation preemption (threads engine): off, coarse, fine, every one
             atomic_yield_mean: *r.pick(&[0u32, 0, 200, 20, 3, 1]),
+            // conflict-directed holds at atomics callers can communicate through
+            atomic_hold_mean: *r.pick(&[0u32, 0, 40, 10, 3, 1]),
+        };
+        if theme.is_some() {
+            // twins are there to meet at the same place: always look for conflicts
+            plan.atomic_hold_mean = *tr.pick(&[1u32, 2, 5, 15]);
+            plan.atomic_yield_mean = *tr.pick(&[0u32, 0, 30, 4]);
         }
+        plan
     }
 }
